@@ -80,6 +80,9 @@ func init() {
 			a.c06Atomic()
 			a.akeErrState("T.err-state")
 			a.c06Commit()
+			a.theirDHWriters()
+			auth, _ := a.dataAuthFacts()
+			a.counterStoreGate("G.counter-store", auth)
 		})
 }
 
